@@ -288,3 +288,55 @@ func Verif_C15_Z3_TaskCompletion() {
 	}
 	vnd.Assert(src.closes == 1, "underlying source not closed exactly once")
 }
+
+// Verif_C15_Z4_TaskConsumesSiblingClone: the replication pattern
+// (LocalBlobReplicator.ReplicateSingle): a buffer is stream-cloned, one clone is
+// handed to the caller decorated with a background task that consumes the OTHER
+// clone. Whatever the caller does with its handle - read it, read part of it,
+// discard it - nobody blocks forever, the source is closed exactly once, the
+// task has finished when the caller is done, and a caller that read to the end
+// got the object's bytes.
+func Verif_C15_Z4_TaskConsumesSiblingClone() {
+	vnd.ExploreSchedules(true)
+	n := 2
+	ref := verifNewRef(n)
+	src := &verifGoodReader{data: ref.data, split: vnd.Choose(2)}
+	integ := &verifIntegrity{}
+	base := NewCASBufferFromReader(ref.digest, src, BackendProvided(integ.callback))
+	b1, b2 := base.CloneStream()
+	taskFinished := false
+	var taskData []byte
+	var taskErr error
+	bt := b1.WithTask(func() error {
+		taskData, taskErr = b2.ToByteSlice(100)
+		taskFinished = true
+		return taskErr
+	})
+	var got []byte
+	var err error
+	how := vnd.Choose(4)
+	switch how {
+	case 0:
+		vnd.Cover("z4-discard")
+		bt.Discard()
+	case 1:
+		vnd.Cover("z4-to-byte-slice")
+		got, err = bt.ToByteSlice(100)
+	case 2:
+		vnd.Cover("z4-chunk-reader-closed-early")
+		r := bt.ToChunkReader(0, 1)
+		r.Read()
+		r.Close()
+	case 3:
+		vnd.Cover("z4-limit-too-small")
+		_, err = bt.ToByteSlice(1)
+		vnd.Assert(err != nil, "an object larger than the consumer's limit was handed out")
+		err = nil
+	}
+	vnd.Assert(taskFinished, "the caller was done with a buffer whose background task had not finished")
+	vnd.Assert(src.closes == 1, "underlying source not closed exactly once")
+	vnd.Assert(taskErr == nil && verifBytesEqual(taskData, ref.data), "the task's clone did not yield the complete object although the source is fine")
+	if how == 1 {
+		vnd.Assert(err == nil && verifBytesEqual(got, ref.data), "the caller's clone did not yield the complete object although the source is fine")
+	}
+}
